@@ -55,7 +55,7 @@ def main():
         i = args.index("--tier")
         extra += ["--tier", args[i + 1]]
         del args[i:i + 2]
-    jobs = [(p, n) for p in args for n in range(1, 16)]
+    jobs = [(p, n) for p in args for n in range(1, 60)]
     with ThreadPoolExecutor(max_workers=8) as ex:
         for r in ex.map(lambda j: one(j[0], j[1], extra), jobs):
             if r:
